@@ -73,7 +73,6 @@ partial def parsePVal (j : Json) : PVal B B :=
   | "ndobj" => .ndobj (unhex (getStr j "dtype")) (unhex (getStr j "shape")) (xs "xs")
   | "task" => .task (unhex (getStr j "name")) (xs "args") (kvs "kwargs")
   | "tasklet" => .tasklet (parsePVal (j.getObjValD "base")) (parsePVal (j.getObjValD "f"))
-  | "getitem" => .getitem (parsePVal (j.getObjValD "idx"))
   | "hashed" => .hashed (parsePVal (j.getObjValD "v"))
   | _ => .atom ByteArray.empty
 
